@@ -38,6 +38,9 @@ def _oracle(args):
         if el.tag == ns + 'meta': return
         for k, v in el.attrib.items():
             if k in ('eId', 'by'): continue
+            # IMG src/alt and the href of {{>...}} are raw in the grammar ((!inline_close [^\n])*): a backslash
+            # there is payload, not an escape, and stays in the value; tokens are compared without it
+            if k in ('src', 'alt', 'href'): v = re.sub(r'\\([^\n])', r'\1', v)
             for t in TOKEN.findall(v): got[t] += 1
         if el.text:
             for t in TOKEN.findall(el.text): got[t] += 1; order.append(t)
